@@ -107,6 +107,15 @@ def sample_decls(adecls, n, rng, must=None):
     custom one in the middle, `finite` written last, ...) are replayed as reliably as common ones."""
     if n is None or n >= len(adecls):
         return list(adecls)
+    if must:
+        # declarations the caller insists on (shapes of repaired defects / of the property's own clause) come first,
+        # themselves stratified, up to a third of the sample
+        m = [ad for ad in adecls if must(ad)]
+        if m and len(m) < len(adecls):
+            first = sample_decls(m, min(len(m), max(1, n // 3)), rng) if len(m) > max(1, n // 3) else list(m)
+            keys_first = set(json.dumps(ad, sort_keys=True) for ad in first)
+            rest = [ad for ad in adecls if json.dumps(ad, sort_keys=True) not in keys_first]
+            return first + sample_decls(rest, n - len(first), rng)
     groups = {}
     for ad in adecls:
         groups.setdefault(shape_key(ad), []).append(ad)
